@@ -27,10 +27,16 @@ INV = ("VersionInAncestry", "ActuallyChanged", "ParentsAreHeads", "KeysMatch", "
 DIR = "d"
 
 
-def cfg(files, maxrev, maxedits, withremove, inv=INV):
-    return ("SPECIFICATION Spec\nCONSTANTS\n  Files = {%s}\n  MaxRev = %d\n  MaxEdits = %d\n  WithRemove = %s\n" % (
-        ", ".join('"%s"' % f for f in files), maxrev, maxedits, "TRUE" if withremove else "FALSE")
-        + "".join("INVARIANT %s\n" % i for i in inv))
+ALL_EDITS = ("modify", "move", "chmod", "renamedir")
+
+
+def cfg(files, maxrev, maxedits, withremove, inv=INV, nb=2, maxmerge=1, switch=False, edits=ALL_EDITS):
+    def b(x):
+        return "TRUE" if x else "FALSE"
+    return ("SPECIFICATION Spec\nCONSTANTS\n  Files = {%s}\n  MaxRev = %d\n  MaxEdits = %d\n  WithRemove = %s\n  NB = %d\n  MaxMerge = %d\n"
+            "  WithSwitch = %s\n  EditKinds = {%s}\n" % (", ".join('"%s"' % f for f in files), maxrev, maxedits, b(withremove), nb, maxmerge,
+                                                       b(switch), ", ".join('"%s"' % e for e in edits))
+            + "".join("INVARIANT %s\n" % i for i in inv))
 
 
 def fid(i):
@@ -49,7 +55,7 @@ def rel_path(t, i):
 class Fixture:
     """Two branches with working trees sharing one repository; revision r1 = the initial tree on both."""
 
-    def __init__(self, workdir, fmt, tree0):
+    def __init__(self, workdir, fmt, tree0, nb=2):
         from breezy import controldir
         self.root = os.path.join(workdir, "c02")
         shutil.rmtree(self.root, ignore_errors=True)
@@ -64,10 +70,11 @@ class Fixture:
         self.trees = {1: t1}
         self.set_wt(1, tree0, {})
         t1.commit("r1", rev_id=rid(1), timestamp=1000000000, timezone=0, committer="C <c@e.com>")
-        d2 = t1.branch.controldir.sprout(os.path.join(self.root, "b2"), revision_id=rid(1))
-        self.trees[2] = d2.open_workingtree()
-        if self.trees[2].branch.repository.user_url != t1.branch.repository.user_url:
-            raise AssertionError("branches do not share the repository")
+        for k in range(2, nb + 1):
+            dk = t1.branch.controldir.sprout(os.path.join(self.root, "b%d" % k), revision_id=rid(1))
+            self.trees[k] = dk.open_workingtree()
+            if self.trees[k].branch.repository.user_url != t1.branch.repository.user_url:
+                raise AssertionError("branches do not share the repository")
         self.repo_url = t1.branch.repository.user_url
 
     def real_wt(self, b):
@@ -138,7 +145,7 @@ class Fixture:
         self.trees[b] = tree = cd.create_workingtree(revision_id=rid(st["tip"][b]))
         if st["pm"][b]:
             with tree.lock_write():
-                tree.set_parent_ids([rid(st["tip"][b]), rid(st["pm"][b])])
+                tree.set_parent_ids([rid(st["tip"][b])] + [rid(x) for x in st["pm"][b]])
         self.set_wt(b, st["wt"][b])
 
     def close(self):
@@ -189,7 +196,7 @@ def replay(sub, chunk):
     rows = sub.cov.setdefault("_collect", [])
     for fmt, beh in chunk:
         tree0 = beh[0][1]["wt"][1]
-        fx = Fixture(sub.workdir, fmt, tree0)
+        fx = Fixture(sub.workdir, fmt, tree0, nb=len(beh[0][1]["wt"]))
         calls = []
         try:
             def do_step(st):
@@ -198,17 +205,20 @@ def replay(sub, chunk):
                 tree = fx.trees[b]
                 if a == "commit":
                     tree.commit("m", rev_id=rid(s["r"]), timestamp=1000000000 + s["r"], timezone=0, committer="C <c@e.com>")
-                elif a == "pull":
-                    # like a merge: the branch is fast-forwarded, the tree gets the new basis and explicit contents
-                    # (how WorkingTree.pull / update rewrite the files is not C02's subject)
+                elif a in ("pull", "switch"):
+                    # like a merge: the branch tip is set (fast-forward, or any revision for switch), the tree gets the new
+                    # basis and explicit contents (how WorkingTree.pull / update rewrite the files is not C02's subject)
                     with tree.lock_write():
-                        tree.branch.pull(fx.trees[3 - b].branch, stop_revision=rid(s["r"]))
+                        tree.branch.generate_revision_history(rid(s["r"]))
                         tree.set_parent_ids([rid(s["r"])])
                     fx.set_wt(b, st["wt"][b])
                 else:
                     if a == "merge":
                         with tree.lock_write():
-                            tree.set_parent_ids([rid(st["tip"][b]), rid(s["r"])])
+                            ps = [rid(st["tip"][b])] + [rid(x) for x in st["pm"][b]]
+                            tree.set_parent_ids(ps)
+                            if tree.get_parent_ids() != ps:
+                                raise AssertionError("set_parent_ids kept %s of %s" % (tree.get_parent_ids(), ps))
                     fx.set_wt(b, st["wt"][b])
 
             prev = beh[0][1]
@@ -291,9 +301,20 @@ def run(ctx):
         tlc.check(ctx, "PerFileGraphMC", cfg_text=cfg(["f"], 4, 1, False), label="MC 1 file + dir, 4 revisions", workers=16, timeout=3000)
         tlc.check(ctx, "PerFileGraphMC", cfg_text=cfg(["f", "g"], 3, 1, False), label="MC 2 files + dir, 3 revisions", workers=16, timeout=3000)
         tlc.check(ctx, "PerFileGraphMC", cfg_text=cfg(["f"], 4, 1, True), label="MC 1 file + dir, 4 revisions, remove / re-add", workers=16, timeout=3000)
-    wit = [("WitnessTwoHeads", 4), ("WitnessTookOther", 4)] + ([] if q else [("WitnessRevertAfterMerge", 4), ("WitnessIdenticalParallel", 4), ("WitnessCrissCross", 5)])
-    for w, mr in wit:
-        tlc.check(ctx, "PerFileGraphMC", cfg_text=cfg(["f"], mr, 1, False, (w,)), expect_violation=w, label="witness " + w, workers=8, timeout=3000)
+        tlc.check(ctx, "PerFileGraphMC", cfg_text=cfg(["f"], 5, 1, False, nb=1, maxmerge=2, switch=True, edits=("modify", "renamedir")),
+                  label="MC 1 file + dir, 5 revisions, one branch with switch, three-parent merges", workers=16, timeout=3000)
+    # anti-vacuity witnesses; TLC's shortest counter-example of each is itself a behaviour that gets replayed on the real code
+    octo = dict(nb=1, maxmerge=2, switch=True, edits=("modify", "renamedir"))
+    wit = [("WitnessTwoHeads", 4, {}), ("WitnessTookOther", 4, {}), ("WitnessOctopusSameVersion", 5, octo)]
+    if not q:
+        wit += [("WitnessRevertAfterMerge", 4, {}), ("WitnessIdenticalParallel", 4, {}), ("WitnessCrissCross", 5, {}),
+                ("WitnessOctopusThreeHeads", 5, octo)]
+    witness_behs = []
+    for w, mr, kw in wit:
+        res = tlc.check(ctx, "PerFileGraphMC", cfg_text=cfg(["f"], mr, 1, False, (w,), **kw), expect_violation=w, label="witness " + w,
+                        workers=4, timeout=3000)
+        witness_behs.append(beh_to_py(res["trace"]))
+    ctx.cov["witness_behaviours"] = len(witness_behs)
     # ---- E2: behaviours
     behs = []
     # (the graph run is also the exhaustive check of the invariants for this configuration)
@@ -306,7 +327,7 @@ def run(ctx):
         behs.append(beh_to_py([(act, parse_state(nodes[nid])) for act, nid in p]))
     ctx.cov["graph"]["replayed_paths"] = len(paths)
     ncover = len(paths)
-    sims, res = tlc.simulate(ctx, "PerFileGraphMC", cfg_text=cfg(["f", "g"], 5 if q else 6, 2, False), num=160 if q else 1200,
+    sims, res = tlc.simulate(ctx, "PerFileGraphMC", cfg_text=cfg(["f", "g"], 5 if q else 6, 2, False, maxmerge=2, switch=True), num=160 if q else 1200,
                              depth=16 if q else 20, seed=ctx.seed + 1, label="simulate 2 files", timeout=3000)
     if not sims:
         ctx.machinery("TLC -simulate produced no behaviour: %s" % res.get("output", "")[-800:])
@@ -334,6 +355,7 @@ def run(ctx):
         else:
             fmts = ("2a", "pack-0.92") if (not q or k % 2 == 0) else ("2a",)
         jobs += [(fmt, b) for fmt in fmts]
+    jobs = [(fmt, b) for b in witness_behs for fmt in ("2a", "pack-0.92")] + jobs
     core.fork_map(ctx, replay, jobs, chunks_per_proc=8)
     rows = [r for r in ctx.collected if "wt_rebuild" not in r]
     rebuilds = [r for r in ctx.collected if "wt_rebuild" in r]
@@ -347,11 +369,14 @@ def run(ctx):
         meta = row["meta"]
         merges = sum(1 for p in row["c"]["P"] if len(p) > 1)
         for law in failed:
-            ctx.violation("law:%s:%s:%s" % (law, meta["format"], "merge-history" if merges else "linear-history"),
+            shape = "linear-history" if not merges else "merge-history" if all(len(p) < 3 for p in row["c"]["P"]) else "three-parent-merge-history"
+            ctx.violation("law:%s:%s:%s" % (law, meta["format"], shape),
                           "law %s fails on %s history %s: last-changed %s, file parents %s, check: %s" % (
                               law, meta["format"], row["c"]["P"], row["impl"]["fv"], row["impl"]["fp"], row["impl"]["check"]), row)
     ctx.rule("behaviours = transition cover of TLC's state graph (1 file + directory, 3 revisions; quick 50, thorough 1500 of the paths) + TLC -simulate runs (2 files + "
              "directory, <= 5 revisions quick / 6 thorough, <= 2 edits per commit) over modify / move / chmod / directory rename / commit / "
-             "merge any missing revision with a per-file THIS-or-OTHER choice / pull on two branches (plus remove / re-add runs); each replayed on 2a and pack-0.92; "
+             "merge any missing revision with a per-file THIS-or-OTHER choice (up to two pending merges: three-parent commits) / pull / switch to any revision "
+             "on two branches (plus remove / re-add runs) + TLC's shortest witness behaviours (two heads, take-other, three parents carrying the same "
+             "version, ...); each replayed on 2a and pack-0.92; "
              "evaluations = revisions read back; non-trivial = history with at least one merge revision")
     ctx.assume("merges and pulls are replayed as set_parent_ids + explicit tree contents")
